@@ -76,11 +76,11 @@ def deviations(g):
             add("list instead of tuple at state %d transition %d" % (s, k),
                 lambda x, s=s, k=k: x["transition_list"][s].__setitem__(k, list(x["transition_list"][s][k])))
             if g["players"][s] == PR:
-                for v in ("x", None):
+                for v in ("x", None, "0.5", "1", " .5 "):
                     add("probability %r at state %d transition %d" % (v, s, k),
                         lambda x, s=s, k=k, v=v: x["transition_list"][s].__setitem__(k, (v, x["transition_list"][s][k][1])))
             else:
-                for v in (1, None, 0.5):
+                for v in (1, None, 0.5, b"a"):
                     add("action %r at state %d transition %d" % (v, s, k),
                         lambda x, s=s, k=k, v=v: x["transition_list"][s].__setitem__(k, (v, x["transition_list"][s][k][1])))
     return devs
@@ -232,6 +232,32 @@ def observe_batch_after(base, game):
     return []
 
 
+def observe_debuglog(game):
+    """configuration: the tool's DEBUG log level (-l d); the malformed game must still be rejected with ValueError"""
+    import logging
+    root = logging.getLogger()
+    if not any(isinstance(h, logging.NullHandler) for h in root.handlers):
+        root.addHandler(logging.NullHandler())
+    old_level = root.level
+    logging.disable(logging.NOTSET)
+    root.setLevel(logging.DEBUG)
+    f = []
+    try:
+        for prune in (True, False):
+            def fn():
+                return tad.StochasticGame(prune_states=prune, **copy.deepcopy(game)).solve()
+            st, val = budget.run_budgeted(fn, cpu_s=2.0, max_lines=2_000_000)
+            if st == "exc" and isinstance(val, ValueError):
+                continue
+            what = "returned a result" if st == "ok" else ("did not terminate" if st == "diverged" else "raised %s: %s" % (type(val).__name__, val))
+            f.append(("C09/debug-log-level", what, "ValueError", "with the root logger at DEBUG level, solve(prune=%s) of the malformed game %s" % (prune, what)))
+            break
+    finally:
+        root.setLevel(old_level)
+        logging.disable(logging.CRITICAL)
+    return f
+
+
 def observe_base(game):
     f = []
     for prune in (True, False):
@@ -299,6 +325,15 @@ def work(shard):
                     if len([v for v in out["violations"] if v["klass"] == f[0]]) < 2:
                         out["violations"].append(c)
                 found = [f for f in found if f is not None]
+            if len(combo) == 1 and base_quick and len(g["players"]) <= 5:
+                out["executions"] += 2
+                out["debuglog"] = out.get("debuglog", 0) + 1
+                for f in observe_debuglog(x):
+                    c = mk_case(x, labels, f)
+                    c["config"]["debuglog"] = True
+                    out["n_violations"] += 1
+                    if len([v for v in out["violations"] if v["klass"] == f[0]]) < 2:
+                        out["violations"].append(c)
             if len(combo) == 1 and base_quick:
                 out["executions"] += 4
                 out["batch_after_good"] = out.get("batch_after_good", 0) + 1
@@ -343,7 +378,8 @@ def run(ctx):
            "evaluations": tot["games"], "distinct_nontrivial": tot["games"], "bases": tot["bases"],
            "single_deviations": tot["single"], "deviation_pairs": tot["pairs"],
            "single_deviations_replayed_after_a_well_formed_primer_containing_their_rows": tot.get("primed", 0),
-           "single_deviations_run_in_a_batch_after_their_well_formed_base": tot.get("batch_after_good", 0), "pairs_on_smallest_bases": pair_bases,
+           "single_deviations_run_in_a_batch_after_their_well_formed_base": tot.get("batch_after_good", 0),
+           "single_deviations_run_with_debug_log_level": tot.get("debuglog", 0), "pairs_on_smallest_bases": pair_bases,
            "single_deviations_per_rule": tot["rules"], "rule": RULE, "exhaustive": not tot.get("truncated"),
            "samples": tot["samples"][:3]}
     return {"coverage": cov, "violations": tot["violations"], "assumptions": ASSUME}
@@ -351,6 +387,9 @@ def run(ctx):
 
 def replay(case):
     g = case["input"]
+    if case["config"].get("debuglog"):
+        f = observe_debuglog(g)
+        return f[0][3] if f else None
     if case["config"].get("batch_after"):
         f = observe_batch_after(case["config"]["batch_after"], g)
         return f[0][3] if f else None
